@@ -52,7 +52,7 @@ theorem filterData_key_eq (v : PyVal) (d : DataV) (hl : d.isList = false) :
   have hi : CClass.info .key = .ok ⟨"Key", "key", true, "", true, true, "key"⟩ := rfl
   simp only [filterData, bind, Except.bind, hk]
   simp only [eqLeaf, Cond.lit, Cond.mapArgs, filterAux, bind, Except.bind, hi, List.map_nil, List.map_cons,
-    Bool.false_eq_true, if_false, if_true, pure, Except.pure]
+    Bool.false_and, Bool.false_eq_true, if_false, if_true, pure, Except.pure]
   rw [mapM_ok _ _ (evalItem_equal_to v)]
 
 theorem filterData_index_eq (v : PyVal) (d : DataV) (hl : d.isList = true) :
@@ -64,7 +64,7 @@ theorem filterData_index_eq (v : PyVal) (d : DataV) (hl : d.isList = true) :
   have hi : CClass.info .index = .ok ⟨"Index", "index", true, "", true, false, "index"⟩ := rfl
   simp only [filterData, bind, Except.bind, hk]
   simp only [eqLeaf, Cond.lit, Cond.mapArgs, filterAux, bind, Except.bind, hi, List.map_nil, List.map_cons,
-    Bool.false_eq_true, if_false, if_true, pure, Except.pure]
+    Bool.false_and, Bool.false_eq_true, if_false, if_true, pure, Except.pure]
   rw [mapM_ok _ _ (evalItem_equal_to v)]
 
 theorem result_eq_flags (cls : CClass) (fn : String) (ks : List PyVal) (v : PyVal) :
